@@ -623,6 +623,74 @@ def check_c08(tier, seed):
 
 
 # ------------------------------------------------------------------------------------------------
+# C17
+
+def check_c17(tier, seed):
+    t0 = time.time()
+    cfgs, skipped = available_configs(["sse2-rel", "scalar", "coresimd"] + (["sse2-dbg", "native"] if tier == "thorough" else []))
+    build_all(cfgs)
+    hist = {"quick": 1500, "thorough": 120000}[tier]
+    results, results_ff = [], []
+    for c in cfgs:
+        h = hist if c != "sse2-dbg" else max(200, hist // 10)
+        results.append((c, run_sim(c, ["c17", "--seed", seed, "--histories", h, "--workers", NCPU])))
+        # the same histories without any injected fault, so that a fault relaxation cannot hide an ordinary bug
+        results_ff.append((c, run_sim(c, ["c17", "--seed", seed, "--histories", max(100, h // 3), "--workers", NCPU, "--no-faults"])))
+    viols, fired, effective, probes = [], {}, {}, {}
+    evals = collect(results, viols, fired, effective, probes)
+    evals += collect(results_ff, viols, {}, {}, {})
+    monitors = {}
+    if tier == "thorough":
+        for mc in ["miri", "miri-scalar", "miri-coresimd"]:
+            try:
+                r = run_miri(mc, ["c17", "--seed", seed, "--histories", 40, "--workers", 1])
+                monitors[mc] = {"histories": r["evaluations"], "ub_reports": 0}
+                evals += r["evaluations"]
+                for v in r["violations"]:
+                    v = dict(v); v["config"] = mc; viols.append(v)
+            except CrashFound as e:
+                monitors[mc] = {"ub_reports": 1, "what": e.what}
+                viols.append({"class": "memory-fault:c17", "config": mc, "detail": e.what,
+                              "replay": {"property": "C17", "kind": "miri-abort", "seed": seed, "violation_class": "memory-fault:c17", "observed": e.what}})
+    rc, known_keys, new_classes = report("C17", viols)
+    ref = results[0][1]
+    cov = {
+        "evaluations": evals,
+        "distinct_nontrivial": max(r["distinct_nontrivial"] for _, r in results),
+        "rule": "a case is a seeded history (1-32 steps) of writes through different paths, with values unique within the history, "
+                "executed against the real object and a [bits; N] reference model; after every step every read path is compared with the "
+                "model bit for bit. distinct = (type, write path, read path) triples exercised (the full matrix has %d entries); "
+                "max over configurations" % ref["extra"]["path_matrix_size"],
+        "samples": ref["samples"][:2],
+        "configurations_run": cfgs + list(monitors),
+        "configurations_skipped": skipped,
+        "histories_per_config": {c: r["evaluations"] for c, r in results},
+        "fault_free_histories_per_config": {c: r["evaluations"] for c, r in results_ff},
+        "steps_executed": sum(r["extra"]["steps_executed"] for _, r in results + results_ff),
+        "path_matrix_size": ref["extra"]["path_matrix_size"],
+        "types": ref["extra"]["types"],
+        "fault_kinds_fired": fired,
+        "fault_kinds_effective": effective,
+        "fault_kinds_stuck_at_zero": sorted(k for k, v in effective.items() if v == 0),
+        "history_digests": {c: r["digests"] for c, r in results},
+        "monitors": monitors,
+        "runs_per_hour": int(evals / max(time.time() - t0, 1e-9) * 3600),
+        "simulated_time": "none - no clock, timer or deadline exists in glam",
+        "concurrency": "none - safe Rust gives a mutable history exactly one owner; there is one task and no scheduler to control",
+        "components": COMPONENTS,
+        "known_findings_seen": known_keys,
+        "new_violation_classes": new_classes,
+    }
+    write_evidence("C17", tier, seed, "exploration", cov,
+                   ["x86_64: SSE2 / core-simd (Deref overlay on a register) and scalar (plain struct) layouts",
+                    "the reference model is updated from the documented meaning of each write path (lane i := value), not from any glam accessor",
+                    "Display/Debug are compared token-wise with the element type's own formatting; bracket style is not judged",
+                    "histories are sampled; lengths up to 32 as the property states"],
+                   time.time() - t0, len(new_classes))
+    return rc
+
+
+# ------------------------------------------------------------------------------------------------
 # C18
 
 def check_c18(tier, seed):
@@ -740,7 +808,7 @@ def replay_cross_build(rep, path):
             "class": rep["violation_class"] if not same else None, "observed": {ca: fa, cb: fb}}
 
 
-CHECKS = {"C08": check_c08, "C18": check_c18, "C19": check_c19}
+CHECKS = {"C08": check_c08, "C17": check_c17, "C18": check_c18, "C19": check_c19}
 
 
 def main():
